@@ -6,6 +6,7 @@ Definition ph_nocrit (p : phase) : Prop :=
   p = PMain \/ p = PTidy WSuccess \/ p = PShut WSuccess \/ p = PTidy WTimeout \/ p = PShut WTimeout.
 Definition ph_counts (p : phase) : Prop := ph_nocrit p.
 Definition cover_ph (p : phase) : Prop := p = PMain \/ (exists w, p = PTidy w) \/ (exists w, p = PShut w).
+Definition ph_open (p : phase) : Prop := p = PMain \/ p = PTidy WTimeout \/ p = PShut WTimeout.
 Definition ph_succ (p : phase) : Prop := p = PTidy WSuccess \/ p = PShut WSuccess.
 Definition ph_crit (p : phase) : Prop := p = PTidy WCritical \/ p = PShut WCritical.
 
@@ -23,7 +24,7 @@ Record Inv5 (c : cfg) (s : state) : Prop := {
                         In x (pend (Rn s n)) \/ In x (seen (Rn s n));
   b_eager : forall n x, ph (Rn s n) = PMain -> In x (members c n) -> st (Jb s x) = Idle ->
                         exists r, In r (reqs c x) /\ ~ In r (seen (Rn s n));
-  b_open : forall n, ph (Rn s n) = PMain -> nfinite c n <> 0 -> ndone (Rn s n) <> nfinite c n
+  b_open : forall n, ph_open (ph (Rn s n)) -> nfinite c n <> 0 -> ndone (Rn s n) <> nfinite c n
 }.
 
 Lemma Inv5_init c : Inv5 c init.
@@ -40,7 +41,7 @@ Proof.
   - intros n [H|H]; discriminate.
   - intros n x [H|[[w H]|[w H]]]; discriminate.
   - intros n x H. discriminate.
-  - intros n H. discriminate.
+  - intros n [H|[H|H]]; discriminate.
 Qed.
 
 (* ---------- stability facts from the J-effect ---------- *)
@@ -116,7 +117,7 @@ Definition inv5_at (c : cfg) (s : state) (n : nat) : Prop :=
              In x (pend (Rn s n)) \/ In x (seen (Rn s n))) /\
   (forall x, ph (Rn s n) = PMain -> In x (members c n) -> st (Jb s x) = Idle ->
              exists r, In r (reqs c x) /\ ~ In r (seen (Rn s n))) /\
-  (ph (Rn s n) = PMain -> nfinite c n <> 0 -> ndone (Rn s n) <> nfinite c n).
+  (ph_open (ph (Rn s n)) -> nfinite c n <> 0 -> ndone (Rn s n) <> nfinite c n).
 
 Lemma Inv5_at c s n : Inv5 c s -> inv5_at c s n.
 Proof.
@@ -156,9 +157,10 @@ Section Step.
     (ph_crit (ph (Rn s' n)) -> ph_crit (ph (Rn s n))) ->
     (ph (Rn s' n) = PMain -> ph (Rn s n) = PMain) ->
     (cover_ph (ph (Rn s' n)) -> cover_ph (ph (Rn s n)) /\ pend (Rn s' n) = pend (Rn s n)) ->
+    (ph_open (ph (Rn s' n)) -> ph_open (ph (Rn s n))) ->
     inv5_at c s' n.
   Proof.
-    intros Es En Ep C2 C3 C4 C5 C6. unfold inv5_at. rewrite Es, En, Ep.
+    intros Es En Ep C2 C3 C4 C5 C6 C7. unfold inv5_at. rewrite Es, En, Ep.
     destruct (Inv5_at c s n I5) as (A1 & A2 & A3 & A4 & A5 & A6 & A7 & A8 & A9 & A10 & A11 & A12).
     split; [exact A1|]. split.
     { intros x Hx. destruct (seen_stay n x Hx) as (B1 & B2 & B3). auto. }
@@ -288,8 +290,9 @@ Section Step.
       assert (Hphw : ph (Rn s' n) = PTidy w \/ ph (Rn s' n) = PShut w) by exact Hw.
       assert (Htail : (forall x, ph (Rn s' n) = PMain -> In x (members c n) -> st (Jb s' x) = Idle ->
                           exists r, In r (reqs c x) /\ ~ In r (seen (Rn s n) ++ d)) /\
-                      (ph (Rn s' n) = PMain -> nfinite c n <> 0 -> ndone (Rn s' n) <> nfinite c n)).
-      { split; intros; contradiction. }
+                      True).
+      { split; [intros; contradiction|exact I]. }
+      destruct Htail as [Htail _].
       destruct w.
       + (* success *)
         destruct Hb as (Hne & Hnc & Hn & Hnf).
@@ -301,7 +304,8 @@ Section Step.
             apply (existsb_false_forall _ _ Hnc x Hx). }
         split; [intros _; exact Hnf|].
         split; [intros [H|H]; destruct Hphw as [H'|H']; rewrite H' in H; discriminate|].
-        split; [exact Hcov|exact Htail].
+        split; [exact Hcov|]. split; [exact Htail|].
+        intros [H|[H|H]]; destruct Hphw as [H'|H']; rewrite H' in H; discriminate.
       + (* timeout *)
         destruct Hb as (Hde & Hn). subst d.
         split; [intros _; rewrite Hn, app_nil_r; apply A6; left; exact Hph|].
@@ -310,7 +314,8 @@ Section Step.
           destruct (seen_stay n x Hx) as (B1 & B2 & B3). rewrite B2. apply A7; [left; exact Hph|exact Hx]. }
         split; [intros [H|H]; destruct Hphw as [H'|H']; rewrite H' in H; discriminate|].
         split; [intros [H|H]; destruct Hphw as [H'|H']; rewrite H' in H; discriminate|].
-        split; [exact Hcov|exact Htail].
+        split; [exact Hcov|]. split; [exact Htail|].
+        intros _ Hnz. rewrite Hn. apply A12; [left; exact Hph|exact Hnz].
       + (* critical *)
         destruct Hb as (Hne & Hcx & Hn).
         split; [intros [H|[H|[H|[H|H]]]]; destruct Hphw as [H'|H']; rewrite H' in H; discriminate|].
@@ -320,7 +325,8 @@ Section Step.
         { intros _. apply existsb_exists in Hcx. destruct Hcx as (x & Hx & Hc). exists x.
           split; [apply in_app_iff; right; exact Hx|].
           destruct (Hdfacts x Hx) as (_ & _ & _ & _ & D5). rewrite D5. exact Hc. }
-        split; [exact Hcov|exact Htail].
+        split; [exact Hcov|]. split; [exact Htail|].
+        intros [H|[H|H]]; destruct Hphw as [H'|H']; rewrite H' in H; discriminate.
     - (* the loop goes on *)
       assert (Hcov : forall x, cover_ph (ph (Rn s' n)) -> In x (members c n) -> st (Jb s' x) <> Idle ->
                      In x (pend (Rn s' n)) \/ In x (seen (Rn s n) ++ d)).
@@ -399,6 +405,7 @@ Section Step.
       + rewrite Q1; auto.
       + rewrite Q1; auto.
       + rewrite Q1. auto.
+      + rewrite Q1; auto.
     - apply inv5_begin; auto.
     - destruct (kept_phase n K A2) as (P1 & P2 & P3).
       destruct K as (K1 & K2 & (f & K3) & K4 & K5 & K6 & K7 & K8 & K9 & K10 & K11).
@@ -423,6 +430,10 @@ Section Step.
         * destruct (P3 _ H) as [E|E]; (split; [|apply K11; rewrite E; discriminate]).
           -- right. left. exists w. exact E.
           -- right. right. exists w. exact E.
+      + intros [H|[H|H]].
+        * contradiction.
+        * rewrite (P2 _ H). right. left. reflexivity.
+        * destruct (P3 _ H) as [E|E]; rewrite E; [right; left|right; right]; reflexivity.
     - apply (inv5_main n d); auto.
   Qed.
 End Step.
